@@ -1,35 +1,7 @@
 // C01 quick tier: rapidcheck-driven structured cases through exec_c01 (seed-deterministic).
-#include "rcx.hpp"
-#include "c01_exec.hpp"
+#include "tgen.hpp"
 
 using namespace gx;
-
-static rc::Gen<FrameT> frame_t_gen() {
-    return rc::gen::exec([] {
-        FrameT t;
-        t.tmpl = (int)*weighted<int64_t>({{4, rc::gen::just<int64_t>(0)}, {4, rc::gen::just<int64_t>(1)}, {2, rc::gen::just<int64_t>(2)},
-                                          {2, rc::gen::just<int64_t>(3)}, {3, rc::gen::just<int64_t>(4)}, {1, rc::gen::just<int64_t>(5)},
-                                          {1, rc::gen::just<int64_t>(6)}, {3, rc::gen::just<int64_t>(7)}, {2, rc::gen::just<int64_t>(8)}});
-        t.tos = (int)*weighted<int64_t>({{6, pick({0, 0, 1})}, {1, pick({2, 3, 0xFF})}, {1, range<int64_t>(0, 255)}});
-        t.opcode = (int)*weighted<int64_t>({{4, range<int64_t>(0, 12)}, {1, range<int64_t>(0, 255)}});
-        t.st = (int)*range<int64_t>(0, 3);
-        t.bridged = (int)*pick({0, 0, 1});
-        t.dst = (int)*pick({0, 0, 0, 1, 2});
-        t.seq = (int)*bnd({0, 1, 0xFFFF}, 0, 0xFFFF, 2, 1);
-        t.count_class = (int)*pick({0, 1, 2, 3, 4, 5, 6, 6, 6});
-        t.count_any = (int)*range<int64_t>(0, 0xFFFF);
-        t.carried = (int)*bnd({0, 1, 2, 3}, 0, 40, 2, 1);
-        t.qtype = (int)*pick({0x0E, 0x0E, 0x11, 0x13, 0x12, 0x00, 0xFF});
-        t.qoff = (int)*bnd({0, 1, 0xFFFF, 541, 542, 543}, 0, 0xFFFF, 2, 1);
-        t.gen = (int)*bnd({0, 1, 0xFFFF}, 0, 0xFFFF, 1, 1);
-        t.trunc = *chance(25) ? (int)*bnd({0, 1, 13, 14, 17, 18, 31, 32, 33, 34, 35, 36, 46}, 0, 9216, 2, 1) : -1;
-        t.pad_to_mtu = (int)*pick({0, 0, 0, 1});
-        int nm = *chance(25) ? (int)*range<int64_t>(1, 4) : 0;
-        for (int i = 0; i < nm; i++) t.mut.push_back({(int)*bnd({12, 13, 14, 15, 16, 17, 30, 31, 32, 33, 34, 35}, 0, 9215, 2, 1), (int)*pick({0, 1, 0x7F, 0x80, 0xFF, 0x55})});
-        if (t.tmpl == 8) t.raw = *bytes(0, 96);
-        return t;
-    });
-}
 
 static rc::Gen<Case> case_gen() {
     return rc::gen::exec([] {
